@@ -665,10 +665,8 @@ func readUnion(tr *tokenReader) (Union, error) {
 
 			// This is a close curly-- we must advance past it or the union
 			// will read it and believe it is complete
-			if tr.keepNextToken {
-				// a member without fields leaves its close curly pending: take it
-				tr.Next()
-			}
+			// a member without fields leaves its close curly pending: drop it
+			tr.keepNextToken = false
 			if !tr.Next() {
 				return union, readError(tr.nextToken, "union definition ended early")
 			}
